@@ -51,6 +51,12 @@ func (r *Run) joinCase(t *testing.T, sc JoinScenario, rng *rand.Rand) joinCaseRe
 		}
 	} else {
 		res.tr = runJoin(sc, false, rng)
+		if res.tr != nil && (res.tr.StuckMsg != "" || res.tr.StopRet == -1) {
+			// real clock: a wall-clock bound expired. On a loaded machine that alone proves
+			// nothing; the scenario is played once more and only a stall that repeats is judged
+			r.Count("real.stalls_seen_once_and_replayed", 1)
+			res.tr = runJoin(sc, false, rng)
+		}
 	}
 	if res.tr == nil {
 		r.Inconclusive("join scenario produced no trace: " + jsonString(sc))
